@@ -29,20 +29,28 @@ def enc(x):
     raise TypeError(f"cannot encode {type(x)}: {x!r}")
 
 
-def dec(x):
+def dec(x, _intern=None):
+    """Decode; structurally equal tuples decode to the *same* object, so that sub-programs that were shared (used
+    twice) in the generated case are shared again in the replayed one (build_all memoizes relations by node identity)."""
+    if _intern is None:
+        _intern = {}
     if x is None or isinstance(x, (bool, int, str)):
         return x
     if isinstance(x, list):
-        return [dec(i) for i in x]
+        return [dec(i, _intern) for i in x]
     if isinstance(x, dict):
         if "tag" in x:
             return VTag(*x["tag"])
         if "t" in x:
-            return tuple(dec(i) for i in x["t"])
+            t = tuple(dec(i, _intern) for i in x["t"])
+            try:
+                return _intern.setdefault(t, t)
+            except TypeError:
+                return t
         if "fs" in x:
-            return frozenset(dec(i) for i in x["fs"])
+            return frozenset(dec(i, _intern) for i in x["fs"])
         if "d" in x:
-            return {dec(k): dec(v) for k, v in x["d"]}
+            return {dec(k, _intern): dec(v, _intern) for k, v in x["d"]}
         if "r" in x:
             return range(*x["r"])
         if "f" in x:
